@@ -61,7 +61,23 @@ def run(ctx):
             c = ctx.rng.randint(lo - 2, hi + 2)
             I[k] = [c, c] if ctx.rng.random() < 0.6 else [c, c + ctx.rng.randint(0, 3)]
         do_case(ctx, {"var": ["a", lo, hi], "I": I})
-    n_models = (60 if ctx.quick else 600) * (3 if ctx.search else 1)
+    # thresholds at and below zero under either sign, over integer leaves whose sums go negative
+    for _ in range(80 if ctx.quick else 600):
+        rng = ctx.rng
+        leaves = [{"c": "var", "id": n, "lo": rng.randint(-4, 0), "hi": rng.randint(0, 3)} for n in rng.sample("pqrs", rng.randint(1, 3))]
+        node = {"c": "AtLeast", "v": rng.randint(-4, 1), "args": leaves, "sign": rng.choice([1, 1, -1])}
+        if rng.random() < 0.5: node["id"] = "Z"
+        a = node if rng.random() < 0.5 else {"c": rng.choice(["Any", "All", "Not"]), **({"arg": node} if False else {}), "args": [node, {"c": "str", "id": "w"}]}
+        if a.get("c") == "Not": a = {"c": "Not", "arg": node}
+        try:
+            o = build(a)
+            if is_var(o) or o.errors(): continue
+        except Exception:
+            continue
+        t = snap(o)
+        I = {k: [v, v] for k, v in ((n, rng.choice([lo, lo, hi, rng.randint(lo, hi)])) for n, (lo, hi) in leaves_of(t).items())}
+        do_case(ctx, {"ast": a, "I": I})
+    n_models = (250 if ctx.quick else 1500) * (3 if ctx.search else 1)
     for _ in range(n_models):
         a, o, t = gen_valid(ctx.rng, ctx.quick, prefix_p=0.2)
         for _ in range(4):
